@@ -145,14 +145,34 @@ def minimise(prop_id, mod, spec, sc, rule, budget_s=150, max_tests=120, decoy=No
     used = set()
     if sc is not None:
         used = {(o["service"], o["method"]) for a in sc["actors"] for o in a["ops"]}
+    def prune_option_files(sp):
+        """Option files must not name methods that no longer exist (that would be a different failure)."""
+        alive = {f"{fs['package']}.{s['name']}.{m['name']}" for fs in sp["files"] for s in fs.get("services", ()) for m in s["methods"]}
+        y = sp.get("service_yaml")
+        if y and (y.get("publishing") or {}).get("method_settings"):
+            y["publishing"]["method_settings"] = [e for e in y["publishing"]["method_settings"] if e["selector"] in alive]
+        if y and (y.get("http") or {}).get("rules"):
+            y["http"]["rules"] = [r for r in y["http"]["rules"] if r["selector"].startswith("google.") or r["selector"] in alive]
+        c = sp.get("service_config")
+        if c:
+            for e in c.get("methodConfig", []):
+                e["name"] = [n for n in e["name"] if f"{n['service']}.{n['method']}" in alive]
+            c["methodConfig"] = [e for e in c["methodConfig"] if e["name"]]
+
     for fs in spec["files"]:
         for s in fs.get("services", ()):
             keep = [m for m in s["methods"] if (s["name"], m["name"]) in used]
             if used and keep and len(keep) < len(s["methods"]):
-                old = s["methods"]
-                s["methods"] = keep
-                if not ok(spec, sc):
-                    s["methods"] = old
+                cand = copy.deepcopy(spec)
+                for fs2 in cand["files"]:
+                    for s2 in fs2.get("services", ()):
+                        if fs2["name"] == fs["name"] and s2["name"] == s["name"]:
+                            s2["methods"] = copy.deepcopy(keep)
+                prune_option_files(cand)
+                if ok(cand, sc):
+                    spec.clear()
+                    spec.update(cand)
+                    break
     for fs in spec["files"]:
         svcs = fs.get("services")
         if svcs and len(svcs) > 1:
